@@ -127,6 +127,12 @@ func (k Keeper) Open(ctx sdk.Context, msg *types.MsgOpen) (*types.MsgOpenRespons
 			return nil, errorsmod.Wrap(types.ErrPoolDoesNotExist, fmt.Sprintf("poolId: %d", poolId))
 		}
 
+		// the collateral has been moved into the amm pool since ammPool was read: refresh it
+		ammPool, err = k.GetAmmPool(ctx, poolId)
+		if err != nil {
+			return nil, err
+		}
+
 		err = k.hooks.AfterPerpetualPositionOpen(ctx, ammPool, pool, creator, params.EnableTakeProfitCustodyLiabilities)
 		if err != nil {
 			return nil, err
